@@ -172,6 +172,15 @@ class Writer:
             cut = self.rng.randint(1, len(items) - 1) if len(items) > 1 else 1
             a, b = list(items[:cut]), list(items[cut:]) or list(items)
             return '[' + ', '.join(a) + ']' + self.rng.choice([' ', '', '  ']) + '[' + ', '.join(b) + ']'
+        if f == 'foreign':      # a setting that is valid, but only for ANOTHER kind of element
+            pool = {'column': ['headercolor: #fff', 'color: #fff', 'type: hash', 'delete: cascade', 'update: cascade'],
+                    'table': ['color: #abc', 'type: hash', 'unique', 'pk', 'delete: cascade', 'increment', 'not null'],
+                    'index': ['headercolor: #fff', 'color: #fff', 'default: 1', 'increment', 'not null', 'delete: cascade', 'ref: > t.c'],
+                    'ref': ['pk', 'unique', 'color: #fff', 'headercolor: #fff', 'type: hash', 'increment', 'not null', 'default: 1'],
+                    'enumitem': ['pk', 'default: 1', 'unique', 'type: hash', 'headercolor: #fff', 'increment', 'delete: cascade'],
+                    'group': ['headercolor: #fff', 'pk', 'type: hash', 'delete: cascade', 'unique']}.get(ctx, ['zzzforeign'])
+            items = list(items)
+            items.insert(self.rng.randint(0, len(items)), self.rng.choice(pool))
         if f and f.startswith('unknown'):
             items = list(items)
             what = {'unknown': 'zzzunknownsetting', 'unknown-kv-string': "zzzunk: 'value'", 'unknown-kv-word': 'zzzunk: value',
